@@ -12,7 +12,7 @@ from checks.sibcomp import WB, API, request, split_reply, vbits
 from vlib import paths
 from vlib.proto import hexs
 
-LEAN_TARGETS = ["LyModel.Props.C04", "LyModel.Props.C04Rb", "LyModel.Props.C04Mk"]
+LEAN_TARGETS = ["LyModel.Props.C04", "LyModel.Props.C04Rb", "LyModel.Props.C04Mk", "LyModel.Props.C04Dup"]
 AUDIT = "Audit/C04.lean"
 GENERATED = ["Consts"]
 ASSUMPTIONS = [
@@ -579,6 +579,47 @@ def rb_destruct_merges(cx, schs):
         cx.fail("sib", "red-black nodes / lyds_tree metadata leaked by lyd_merge DESTRUCT (lyds pool)", {"reply": a, "attrib": None})
 
 
+def rb_dup_intos(cx, schs):
+    """lyd_dup_siblings of all instances of one system-ordered leaf-list INTO a container that holds none / some instances already
+    (the first_llist fast path of lyd_dup and the test that leaves it): red-black shape, metadata position, verdict and
+    sibling order of the target vs Rb.Lyds.dupInto.  All pairs of insert sequences of length <= 3 over 4 keys (target may be
+    empty), random larger ones with removals."""
+    sch = schs["S1"]
+    rng = cx.sub_rng("rbp")
+    seqs = [list(t) for n in range(0, 4) for t in itertools.product([1, 2, 3, 4], repeat=n)]
+    cases = [("exh", ["i%d" % k for k in d], ["i%d" % k for k in s_]) for d in seqs[:41] for s_ in seqs if s_]
+
+    def rnd_script(n, dom):
+        q, live = [], 0
+        for _ in range(n):
+            q.append("i%d" % rng.randrange(-dom, dom)); live += 1
+            if live > 1 and rng.random() < 0.2:
+                q.append("u%d" % rng.randrange(live)); live -= 1
+        return q
+    for _ in range(cx.n(300, 4000)):
+        dom = rng.choice([3, 10, 40, 1000])
+        cases.append(("random", rnd_script(rng.choice([0, 0, 1, 2, 3, 6, 12]), dom), rnd_script(rng.choice([1, 2, 3, 6, 12]), dom)))
+    lines = ["%d sib rbp c %s %s %s %s" % (i, sch.desc_tok, sch.yang_tok, ",".join(d) or "-", ",".join(s_) or "-") for i, (_, d, s_) in enumerate(cases)]
+    lines.append("%d sib rbleak" % len(cases))
+    ri = cx.run_impl(WB, lines, component="sib")
+    rm = cx.run_model(lines)
+    for i, (kind, d, s_) in enumerate(cases):
+        a, b = ri.get(str(i), ["err", "NoReply"]), rm.get(str(i), ["err", "NoReply"])
+        cx.count(("rbp", tuple(d), tuple(s_)), True, "sib:rbp:%s:%s" % (kind, "empty-parent" if not d else "populated"))
+        if a != b:
+            cx.disagree("sib-rbp", "rbp dst=%s src=%s" % (",".join(d), ",".join(s_)), " ".join(a)[:300], " ".join(b)[:300])
+            continue
+        toks = a[1:]
+        v = [t for t in toks if t.startswith("V")]
+        order = [int(t.split(":")[0]) for t in toks[toks.index("=") + 1:]] if "=" in toks else []
+        if (v and v[0] != "V0") or order != sorted(order):
+            cx.fail("sib", "red-black tree / sibling order broken after lyd_dup_siblings into a parent", {"dst": d, "src": s_, "state": " ".join(a)[:300], "attrib": None})
+    a, b = ri.get(str(len(cases)), ["err", "NoReply"]), rm.get(str(len(cases)), ["err", "NoReply"])
+    cx.count(("rbp", "leak"), True, "sib:rbp:leakcheck")
+    if a != b:
+        cx.fail("sib", "leak after lyd_dup_siblings into a parent", {"reply": a, "attrib": None})
+
+
 def corpus_scripts():
     d = os.path.join(paths.CORPUS, "sib")
     out = []
@@ -641,6 +682,7 @@ def run(cx):
     rb_scripts(cx, schs)
     rb_merges(cx, schs)
     rb_destruct_merges(cx, schs)
+    rb_dup_intos(cx, schs)
 
     # 3. laws on the implementation
     perm_law(cx, schs)
